@@ -12,7 +12,7 @@ use serde_json::{Value, json};
 
 use crate::{
     evrec::Item,
-    pipelines::{SharedBuf, feed},
+    pipelines::{SharedBuf, feed_cloning},
     recw,
     world::TW,
 };
@@ -125,11 +125,13 @@ pub fn dump_case(idx: u64, items: &[Item], opt: u64, flags: Value) -> Value {
     let verbosity = (opt % 3) as u8; // Basic / JUnit verbosity
     let show_output = opt % 2 == 1;
     let report_time = opt % 5 == 0;
+    // every 4th case hands the second half of the stream to a clone of the reporter
+    let clone_at = (opt % 4 == 1 && items.len() > 3).then_some(items.len() / 2);
 
     let basic = guarded(|| {
         let buf = SharedBuf::default();
         let mut w = writer::Basic::new::<TW>(buf.clone(), Coloring::Never, verbosity);
-        feed(&mut w, items, &writer::basic::Cli { verbose: 0, color: Coloring::Never });
+        feed_cloning(&mut w, items, &writer::basic::Cli { verbose: 0, color: Coloring::Never }, clone_at);
         buf.text()
     });
     // the terminal reporter as `Basic::stdout()` builds it: with the summary at the end
@@ -137,7 +139,7 @@ pub fn dump_case(idx: u64, items: &[Item], opt: u64, flags: Value) -> Value {
         use cucumber::WriterExt as _;
         let buf = SharedBuf::default();
         let mut w = writer::Basic::new::<TW>(buf.clone(), Coloring::Never, verbosity).summarized();
-        feed(&mut w, items, &writer::basic::Cli { verbose: 0, color: Coloring::Never });
+        feed_cloning(&mut w, items, &writer::basic::Cli { verbose: 0, color: Coloring::Never }, clone_at);
         buf.text()
     });
     let libtest = guarded(|| {
@@ -149,24 +151,24 @@ pub fn dump_case(idx: u64, items: &[Item], opt: u64, flags: Value) -> Value {
             report_time: report_time.then_some(writer::libtest::ReportTime::Plain),
             nightly: None,
         };
-        feed(&mut w, items, &cli);
+        feed_cloning(&mut w, items, &cli, clone_at);
         buf.text()
     });
     let jsonr = guarded(|| {
         let buf = SharedBuf::default();
         let mut w = writer::Json::new::<TW>(buf.clone());
-        feed(&mut w, items, &cucumber::cli::Empty);
+        feed_cloning(&mut w, items, &cucumber::cli::Empty, clone_at);
         buf.text()
     });
     let junit = guarded(|| {
         let buf = SharedBuf::default();
         let mut w = writer::JUnit::<TW, SharedBuf>::new(buf.clone(), verbosity.min(1));
-        feed(&mut w, items, &writer::junit::Cli { verbose: None });
+        feed_cloning(&mut w, items, &writer::junit::Cli { verbose: None }, clone_at);
         buf.text()
     });
     json!({
         "case_index": idx,
-        "opts": {"verbosity": verbosity, "show_output": show_output, "report_time": report_time},
+        "opts": {"verbosity": verbosity, "show_output": show_output, "report_time": report_time, "cloned_at": clone_at},
         "flags": flags,
         "facts": facts(&norm),
         "basic": basic, "libtest": libtest, "json": jsonr, "junit": junit,
